@@ -677,7 +677,9 @@ func c09mkRange(p, cls, variant int) (headers.Range, string) {
 		return time.Date(y, mo, d, h, mi, s, 0, time.UTC)
 	}
 	clockA := [4]time.Time{utc(1970, 1, 1, 0, 0, 0), utc(1970, 1, 1, 0, 0, 1), utc(2021, 3, 4, 5, 6, 7), utc(9999, 12, 31, 22, 59, 59)}
-	clockB := [4]time.Time{utc(2000, 2, 29, 12, 0, 0), utc(1999, 12, 31, 23, 59, 59), utc(2038, 1, 19, 3, 14, 8), utc(2262, 4, 11, 22, 47, 16)}
+	// the second set has millisecond resolution (RFC 2326 3.7: utc-time = 6DIGIT [ "." fraction ])
+	clockB := [4]time.Time{utc(2000, 2, 29, 12, 0, 0), utc(1999, 12, 31, 23, 59, 59).Add(500 * ms),
+		utc(2038, 1, 19, 3, 14, 8).Add(123 * ms), utc(2262, 4, 11, 22, 47, 16).Add(1 * ms)}
 	end := c09bit(p, 0)
 	var r headers.Range
 	var why string
@@ -735,7 +737,7 @@ func c09mkRange(p, cls, variant int) (headers.Range, string) {
 		why = "npt_ms"
 		npt([4]time.Duration{123 * ms, sec + 57*ms, 3661*sec + 789*ms, 359999*sec + 998*ms}, 1*ms)
 	case 7:
-		why = "clock"
+		why = "clock_ms"
 		clock(clockB)
 	}
 	if c09bit(p, 1) {
